@@ -93,7 +93,8 @@ func (g *graphGen) user(depth int) *User {
 }
 
 var OpKinds = []string{"Create", "CreateSlice", "CreatePtrSlice", "CreateInBatches", "SaveNew", "SaveExisting", "FullSave",
-	"Update", "UpdatesStruct", "UpdatesAssoc", "UpdatesWhere", "UpdateColumn", "Delete", "DeleteSelect", "DeleteSelectAll", "DeleteWhere"}
+	"Update", "UpdatesStruct", "UpdatesAssoc", "UpdatesWhere", "UpdateColumn", "Delete", "DeleteSelect", "DeleteSelectAll", "DeleteWhere",
+	"DeleteReturning", "DeleteSelectReturning", "UpdatesReturning"}
 
 // GenOp builds the operation identified by (kind, seed).
 func GenOp(kind string, seed uint64) Op {
@@ -273,6 +274,40 @@ func GenOp(kind string, seed uint64) Op {
 		op.Run = func(db *gorm.DB) *gorm.DB {
 			last = nil
 			return db.Where("age >= ?", 40).Delete(&User{})
+		}
+	case "DeleteReturning":
+		_, r := mk()
+		id := int64(r.Range(1, 3))
+		op.Desc = fmt.Sprintf("db.Clauses(clause.Returning{}).Delete(&User{ID:%d})", id)
+		op.Run = func(db *gorm.DB) *gorm.DB {
+			u := &User{ID: id}
+			last = []*User{u}
+			return db.Clauses(clause.Returning{}).Delete(u)
+		}
+	case "DeleteSelectReturning":
+		_, r := mk()
+		sets := [][]string{{"Orders"}, {"Profile"}, {"Orders", "Profile"}, {"Roles"}, {"Notes"}}
+		sel := sets[r.Intn(len(sets))]
+		id := int64(r.Range(1, 2))
+		cols := [][]clause.Column{nil, {{Name: "name"}}, {{Name: "id"}, {Name: "age"}}}[r.Intn(3)]
+		op.Desc = fmt.Sprintf("db.Clauses(clause.Returning{Columns: %v}).Select(%q).Delete(&User{ID:%d})", cols, sel, id)
+		op.Run = func(db *gorm.DB) *gorm.DB {
+			u := &User{ID: id}
+			last = []*User{u}
+			args := make([]interface{}, len(sel)-1)
+			for i, s := range sel[1:] {
+				args[i] = s
+			}
+			return db.Clauses(clause.Returning{Columns: cols}).Select(sel[0], args...).Delete(u)
+		}
+	case "UpdatesReturning":
+		_, r := mk()
+		id := int64(r.Range(1, 3))
+		op.Desc = fmt.Sprintf("db.Model(&User{ID:%d}).Clauses(clause.Returning{}).Updates(User{Name:'upd', Age:77})", id)
+		op.Run = func(db *gorm.DB) *gorm.DB {
+			u := &User{ID: id}
+			last = []*User{u}
+			return db.Model(u).Clauses(clause.Returning{}).Updates(User{Name: "upd", Age: 77})
 		}
 	default:
 		panic("txm: op kind " + kind)
